@@ -234,7 +234,33 @@ class Check:
         return 0
 
 
+class LibraryTimeout(Exception):
+    pass
+
+
+def _alarm(signum, frame):
+    raise LibraryTimeout()
+
+
+CALL_TIMEOUT = 60       # seconds per library call; a time-out is not a verdict
+
+
 def guarded(fn, *args, documented=(), **kw):
+    import signal
+    old = signal.signal(signal.SIGALRM, _alarm)
+    signal.setitimer(signal.ITIMER_REAL, CALL_TIMEOUT)
+    try:
+        return _guarded(fn, *args, documented=documented, **kw)
+    except LibraryTimeout:
+        return None, {"type": "NotImplementedError", "documented": True,
+                      "msg": f"harness time-out after {CALL_TIMEOUT}s "
+                             "(call skipped)", "timeout": True}
+    finally:
+        signal.setitimer(signal.ITIMER_REAL, 0)
+        signal.signal(signal.SIGALRM, old)
+
+
+def _guarded(fn, *args, documented=(), **kw):
     """Call the library; returns (result, exception record or None).
     Exceptions of a documented type are refusals, anything else is reported
     by the caller as a contract failure of that event."""
